@@ -47,6 +47,7 @@ pub async fn apply_opts(s: &Socket, opts: &Value) {
         "IO_URING_SESSION_ENABLED" => opt::IO_URING_SESSION_ENABLED,
         "IO_URING_SNDZEROCOPY" => opt::IO_URING_SNDZEROCOPY,
         "IO_URING_RCVMULTISHOT" => opt::IO_URING_RCVMULTISHOT,
+        "IO_URING_ZC_SEND_THRESHOLD" => opt::IO_URING_ZC_SEND_THRESHOLD,
         "TCP_CORK" => opt::TCP_CORK,
         "SNDBATCH_COUNT" => opt::SNDBATCH_COUNT,
         "SNDBATCH_BYTES" => opt::SNDBATCH_BYTES,
